@@ -45,7 +45,9 @@ class DupnInstruction(MichelsonInstruction, prim='DUP', args_len=1):
     def execute(cls, stack: MichelsonStack, stdout: List[str], context: AbstractContext):
         depth = cls.args[0].get_int() - 1  # type: ignore
         stack.protect(count=depth)
-        res = stack.peek().duplicate()
+        top = stack.peek()
+        assert top.is_duplicable(), f'{top.prim} is not duplicable'
+        res = top.duplicate()
         stack.restore(count=depth)
         stack.push(res)
         stdout.append(format_stdout(cls.prim, [*Wildcard.n(depth), res], [res, *Wildcard.n(depth), res], depth))  # type: ignore
@@ -55,7 +57,9 @@ class DupnInstruction(MichelsonInstruction, prim='DUP', args_len=1):
 class DupInstruction(MichelsonInstruction, prim='DUP'):
     @classmethod
     def execute(cls, stack: MichelsonStack, stdout: List[str], context: AbstractContext):
-        res = stack.peek().duplicate()
+        top = stack.peek()
+        assert top.is_duplicable(), f'{top.prim} is not duplicable'
+        res = top.duplicate()
         stack.push(res)
         stdout.append(format_stdout(cls.prim, [res], [res, res]))  # type: ignore
         return cls(stack_items_added=1)
